@@ -175,6 +175,10 @@ package registration
 // that record carries the encryption key of the signed request, the credentials inside echo the request's nonce,
 // carry the record's certificate chains and the public half of the record's server key; the record is the stored one;
 // the signature is made with the key of the stored current root.
+// (c) the node is authorized from registration info only after that info - unsealed by the registration wrapper or
+// by a registered node's key - was matched against the signed request's nonce and certificate key
+//@   call registration.authorizeNodeCommon assert[C01 infomatches] registrationInfo != nil
+//@   |   && bytes(registrationInfo.Nonce) == nonce && bytes(registrationInfo.CertificatePublicKeyPkix) == certpub
 //@   call types.LoadNodeInformation assert[C04,C12 optspassed] opts(arg3).WithStorageWrapper == opts(opt).WithStorageWrapper
 //@   call nodeenrollment.EncryptMessage assert[C04 sealedfor] nodeInfo != nil && payload(arg2) == nodeInfo && payload(arg1) == nodeCreds
 //@   |   && bytes(nodeInfo.EncryptionPublicKeyBytes) == encpub && bytes(nodeInfo.CertificatePublicKeyPkix) == certpub
